@@ -303,14 +303,46 @@ def extract_inputs(trace):
     return last
 
 
+def portable_defines(ctx, defines):
+    """Replay files must not depend on scratch paths: paths below the checked tree / the injected / extracted dirs are
+    stored with markers, other generated files (e.g. a shape header) are embedded."""
+    out, emb = {}, {}
+    for k, v in defines.items():
+        if isinstance(v, str) and len(v) > 2 and v[0] == '"' and v[-1] == '"' and v[1] == "/":
+            path = v[1:-1]
+            for marker, root in (("@INJ@", ctx.inj), ("@EXT@", ctx.ext), ("@REPO@", ctx.repo)):
+                if path.startswith(root + "/"):
+                    v = '"%s%s"' % (marker, path[len(root):]); break
+            else:
+                if path.startswith(ctx.scratch + "/") and os.path.isfile(path):
+                    emb[k] = {"name": os.path.basename(path), "content": open(path).read()}
+                    v = '"@EMBEDDED@/%s"' % os.path.basename(path)
+        out[k] = v
+    return out, emb
+
+
+def resolve_defines(ctx, doc, wd):
+    out = {}
+    for k, v in (doc.get("defines") or {}).items():
+        if isinstance(v, str):
+            v = v.replace("@INJ@", ctx.inj).replace("@EXT@", ctx.ext).replace("@REPO@", ctx.repo).replace("@EMBEDDED@", wd)
+        out[k] = v
+    for k, e in (doc.get("embedded_files") or {}).items():
+        with open(os.path.join(wd, e["name"]), "w") as f:
+            f.write(e["content"])
+    return out
+
+
 def build_replay(ctx, obl, res):
     """Re-run with --trace, write the replay file, run it natively. Fills res.replay / res.reproduced."""
     rdir = os.path.join(VERIF, "evidence", "replay")
     os.makedirs(rdir, exist_ok=True)
     tag = re.sub(r"[^A-Za-z0-9_.-]", "_", obl.name)
     path = os.path.join(rdir, tag + ".json")
+    pdefs, embedded = portable_defines(ctx, obl.defines)
     doc = {"obligation": obl.name, "property": obl.prop, "harness": obl.harness, "entry": obl.entry,
-           "defines": obl.defines, "mode": obl.mode, "bound": obl.bound,
+           "defines": pdefs, "embedded_files": embedded, "mode": obl.mode, "bound": obl.bound,
+           "includes": [i.replace(ctx.inj, "@INJ@").replace(ctx.ext, "@EXT@").replace(ctx.repo, "@REPO@") for i in obl.includes],
            "failed_cbmc_properties": [{"id": a, "description": b} for a, b in res.failed],
            "inputs_c": None, "verifier_output_tail": ""}
     try:
@@ -397,7 +429,8 @@ def run_replay(ctx, doc, verbose=False):
     with open(os.path.join(wd, "replay_inputs.h"), "w") as f:
         f.write("#define REPLAY_INPUTS " + doc["inputs_c"] + "\n")
     exe = os.path.join(wd, "replay")
-    cmd = ["gcc", "-std=gnu11"] + native_flags(ctx, doc.get("defines", {})) + \
+    incs = [i.replace("@INJ@", ctx.inj).replace("@EXT@", ctx.ext).replace("@REPO@", ctx.repo) for i in doc.get("includes", [])]
+    cmd = ["gcc", "-std=gnu11"] + native_flags(ctx, resolve_defines(ctx, doc, wd), incs) + \
           ["-I", wd, "-DHARNESS_ENTRY=" + doc["entry"], os.path.join(VERIF, doc["harness"]),
            os.path.join(VERIF, "harness", "replay_main.c"), "-o", exe, "-lm"]
     rc, txt, _ = sh(cmd, 300, 64)
